@@ -560,6 +560,45 @@ theorem claimNameplate_integrity {s s1 : Sys} {app name side t fresh} (hp : s.db
         · cases this
         · split at this <;> cases this
 
+/-- the continuation answers `ok` only with the mailbox id it was given -/
+theorem claimCont_ok {s s1 : Sys} {app npid mb side t m}
+    (h : claimCont s app npid mb side t = (s1, .ok m)) : m = mb := by
+  unfold claimCont at h
+  dsimp only at h
+  split at h
+  · cases h
+  · cases h
+  · split at h
+    · cases h
+    · simp only [Prod.mk.injEq, ClaimRes.ok.injEq] at h
+      exact h.2.symm
+
+/-- **`claim_nameplate` answers `ok m`** only with the mailbox id of the nameplate row it found,
+    or, when it found none, with the generated id (needs nothing but the id bound) -/
+theorem claimNameplate_ok {s s1 : Sys} {a n σ t fresh m}
+    (h : s.claimNameplate a n σ t fresh = (s1, .ok m)) :
+    (∃ row, s.db.findNameplate a n = some row ∧ m = row.mailbox) ∨
+    (s.db.findNameplate a n = none ∧ m = fresh) := by
+  unfold claimNameplate at h
+  split at h
+  · rename_i hnone
+    split at h
+    · cases h
+    · dsimp only at h
+      rw [claimTail_eq] at h
+      split at h
+      · exact Or.inr ⟨hnone, claimCont_ok h⟩
+      · split at h
+        · exact Or.inr ⟨hnone, claimCont_ok h⟩
+        · cases h
+  · rename_i row hrow
+    rw [claimTail_eq] at h
+    split at h
+    · exact Or.inl ⟨row, hrow, claimCont_ok h⟩
+    · split at h
+      · exact Or.inl ⟨row, hrow, claimCont_ok h⟩
+      · cases h
+
 /-! ### `release_nameplate` -/
 
 /-- **`release_nameplate`, exact.**  It never fails.  No nameplate `(app, name)`, or no row of
